@@ -6,10 +6,10 @@
 (*                                                                          *)
 (*  cfg DirLock_MC.cfg          design "documented": all laws hold.         *)
 (*  generated cfgs (harness)    one run per faulty design; the harness      *)
-(*                              requires TLC to refute the law named in     *)
-(*                              x10_dirlock.FAULTY (vacuity guard), among   *)
-(*                              them "as_built", the design of the pinned   *)
-(*                              tree.                                        *)
+(*                              requires TLC to refute one of the laws      *)
+(*                              named in x10_dirlock.DIR_FAULTY (vacuity    *)
+(*                              guard), among them "as_built", the design   *)
+(*                              of the pinned tree.                          *)
 (*  cfg DirLock_Sched.cfg       run-to-block scheduling; every maximal      *)
 (*                              sequence of control actions is printed as   *)
 (*                              JSON (binding A: the schedules the harness  *)
